@@ -3,6 +3,7 @@ package c03
 import (
 	"errors"
 	"fmt"
+	"math"
 	"reflect"
 	"sort"
 	"strings"
@@ -259,7 +260,58 @@ func buildProgram(p Prog) (q *cypher.RegularQuery, skip string) {
 	return built, ""
 }
 
+// nonFinite reports whether a value description holds NaN or an infinity. How such values are written into
+// SQL text (the shortest-path harness statements) is the subject of C04 / C05, not of this property.
+func (v V) nonFinite() bool {
+	if v.T == "nan" || v.T == "inf" || math.IsNaN(v.F) || math.IsInf(v.F, 0) || (v.T == "float32" && math.IsInf(float64(float32(v.F)), 0)) {
+		return true
+	}
+	for _, e := range v.L {
+		if e.nonFinite() {
+			return true
+		}
+	}
+	return false
+}
+
+func (x X) nonFinite() bool {
+	if x.V != nil && x.V.nonFinite() {
+		return true
+	}
+	for _, a := range x.A {
+		if a.nonFinite() {
+			return true
+		}
+	}
+	return false
+}
+
+func (p Prog) nonFinite() bool {
+	if p.Where != nil && p.Where.nonFinite() {
+		return true
+	}
+	for _, r := range p.Ret {
+		if r.nonFinite() {
+			return true
+		}
+	}
+	for _, o := range p.Order {
+		if o.X.nonFinite() {
+			return true
+		}
+	}
+	for _, u := range p.Upd {
+		if u.V != nil && u.V.nonFinite() {
+			return true
+		}
+	}
+	return false
+}
+
 func builderOracle(c BuilderCase) (evid.Info, error) {
+	if c.Prog.nonFinite() {
+		return evid.Info{Skip: "non-finite-float-value(C04/C05)"}, nil
+	}
 	model, skip := buildProgram(c.Prog)
 	if skip != "" {
 		return evid.Info{Skip: skip}, nil
